@@ -104,8 +104,25 @@ def cli_case(ctx, rows, batch_size, tmp):
         for i, x in enumerate(rows):
             w.writerow([x] + [extra[c](i) for c in cols])
     err = None
+    seen = {}
+    from synrbl import Balancer
+
+    orig_rebalance = Balancer.rebalance
+
+    def spy(self_, reactions, *a, **k):
+        import copy
+
+        seen["ins"] = copy.deepcopy(reactions)
+        res = orig_rebalance(self_, reactions, *a, **k)
+        seen["outs"] = copy.deepcopy(res)
+        return res
+
     try:
-        impute(src, dst, "reaction", list(cols), 0, n_jobs=1, batch_size=batch_size)
+        Balancer.rebalance = spy
+        try:
+            impute(src, dst, "reaction", list(cols), 0, n_jobs=1, batch_size=batch_size)
+        finally:
+            Balancer.rebalance = orig_rebalance
         df = pd.read_csv(dst, keep_default_na=False, dtype=str)
     except SystemExit as e:
         err = "SystemExit %s" % e
@@ -122,6 +139,21 @@ def cli_case(ctx, rows, batch_size, tmp):
         ctx.violation("row-count-differs-from-input", {"form": "cli", "rows": rows}, "csv has %d rows" % len(df),
                       "synrbl/SynCmd/cmd_run.py:impute")
         return
+    # the copy loop against the Lean model (`Cli.passThrough`): the rows handed to rebalance, the rows it returned, and the
+    # pass-through columns of the CSV that was written (values as the strings the CSV holds)
+    def as_rec(d):
+        return [[str(k), "" if (v is None or (isinstance(v, float) and math.isnan(v))) else str(v)] for k, v in d.items()]
+
+    if isinstance(seen.get("ins"), list) and isinstance(seen.get("outs"), list) and all(isinstance(r, dict) for r in seen["ins"] + seen["outs"]):
+        ans = ctx.driver([{"op": "passThrough", "cols": list(cols), "ins": [as_rec(r) for r in seen["ins"]], "outs": [as_rec(r) for r in seen["outs"]]}])[0]
+        ctx.traces += 1
+        model_rows = [dict(r) for r in ans.get("rows", [])]
+        real_rows = [{c: (df[c][i] if c in df.columns else "<column missing>") for c in cols} for i in range(len(df))]
+        if [{c: r.get(c, "<column missing>") for c in cols} for r in model_rows] != real_rows:
+            ctx.corr_break("Cli.passThrough", {"rows": rows, "out_columns": cols, "batch_size": batch_size},
+                           [{c: r.get(c) for c in cols} for r in model_rows], real_rows)
+    else:
+        ctx.corr_break("Cli.passThrough", {"rows": rows}, "rebalance is called once with the CSV records", "call not observed")
     for i, x in enumerate(rows):
         want, ok = expected_input(x)
         got = {c: (df[c][i] if c in df.columns else "<column missing>") for c in cols}
